@@ -2,6 +2,7 @@ package c17
 
 import (
 	"fmt"
+	"math"
 	"math/rand"
 
 	"verifh/engine"
@@ -239,6 +240,11 @@ func wideLRUCase(k *engine.Case) {
 	capacity := int64(rt.eff())*4096 + int64(r.Intn(1000))
 	if r.Intn(4) == 0 {
 		capacity = 1<<50 + int64(r.Intn(1000))
+	}
+	if r.Intn(9) == 0 {
+		// "unlimited": capacities at the top of int64, with any number of shards
+		capacity = math.MaxInt64 - []int64{0, 0, 1, 2, int64(r.Intn(200)), int64(r.Intn(5000))}[r.Intn(6)]
+		k.Count("lru_cases_capacity_near_maxint64", 1)
 	}
 	singleCap := capacity
 	if r.Intn(7) == 0 {
